@@ -2,8 +2,8 @@
 
 Model checking : Pipeline.tla - the probe file .write_test (C16_ProbeUntouched) for every interleaving;
                  intended knobs hold, as-built knobs (BuildProbes) violate it on the build driver.
-Replay         : TLC-enumerated histories (incl. runs that find no commands, a foreign .write_test, loss of
-                 files) x output-directory layouts {beside the project, inside it, nested 4 deep below
+Replay         : TLC-enumerated histories (incl. runs that find no commands - also as the very first run into a
+                 directory without a cache record -, a foreign .write_test, loss of files) x output-directory layouts {beside the project, inside it, nested 4 deep below
                  non-existing parents, absolute path, trailing slash, equal to the project source directory}
                  x drivers {generate, init, build}; the output directory is pre-populated with foreign files
                  whose names are close to the reserved ones.
@@ -72,6 +72,20 @@ def run(tier, seed, only=None):
                     or not any(x[0] in ("edit",) for x in h["h"])]
             extra = [h for h in h1 if h not in keep]
             hs[drv] = keep + rnd.sample(extra, min(4 if tier == "quick" else len(extra), len(extra)))
+        # a project WITHOUT commands generating into a directory no generation has touched (no cache record yet)
+        fresh = {}
+        for drv in ("cli", "build"):
+            hf, _ = P.gen_histories("Gen_Pipeline_%s_fresh" % drv)
+            keepf = [h for h in hf if any(x[0] in ("commands", "place", "lose") for x in h["h"]) or not any(x[0] == "edit" for x in h["h"])]
+            fresh[drv] = keepf + rnd.sample([h for h in hf if h not in keepf], 2)
+        for lname, setup in layouts():
+            for drv in ("cli", "build", "init"):
+                srcf = fresh["cli" if drv == "init" else drv]
+                if tier == "quick" and lname not in ("beside", "inside"):
+                    srcf = srcf[:2]
+                for i, h in enumerate(srcf):
+                    cases.append({"id": "%s-%s-fresh%d" % (drv, lname, i), "h": h["h"], "ev": h["ev"], "viz": h["viz"], "cmds": h.get("cmds", True),
+                                  "driver": drv, "setup": setup, "layout": lname, "rich_foreign": True})
         for lname, setup in layouts():
             for drv in ("cli", "build", "init"):
                 src = hs["cli" if drv == "init" else drv]
